@@ -1,6 +1,7 @@
 package main
 
 import (
+	"math"
 	"context"
 	"errors"
 	"reflect"
@@ -47,6 +48,9 @@ func implString(v interface{}) string {
 	case float64:
 		if x == float64(int64(x)) {
 			return strconv.FormatInt(int64(x), 10)
+		}
+		if x == math.Trunc(x) && !math.IsInf(x, 0) { // whole, beyond int64: the digits of its shortest decimal form
+			return strconv.FormatFloat(x, 'f', -1, 64)
 		}
 		return "f:" + strconv.FormatFloat(x, 'g', -1, 64)
 	case int:
@@ -551,6 +555,9 @@ func genSessionFormula(s *Stream, m *runnerModel, maxNodes, maxDepth int, bad bo
 // ---------------------------------------------------------------- operations
 
 func (sr *sessRunner) randomValue(s *Stream) MV {
+	if s.Intn(14) == 0 { // a whole float64 beyond the int64 range (its decimal expansion is exact)
+		return MV{K: mkBig, N: 1, S: []string{"10000000000000000000", "9223372036854776000", "-10000000000000000000", "1000000000000000000000000"}[s.Intn(4)]} // written as the shortest decimal that reads back as the same float64
+	}
 	switch s.Intn(6) {
 	case 0:
 		return mNum(int64(s.Intn(50)))
